@@ -87,7 +87,7 @@ func init() {
 			{Name: "delete-then-crash", Cfg: "clients=1,wdel=5,wdm=1,imgcap=6,cutden=40,noreopen,nosettle", Gating: true, Share: 2},
 			{Name: "concurrent-writers-snapshots-deletes-then-crash", Cfg: "clients=3,wdel=5,wdm=1,wsnap=4,wsnaprace=6,imgcap=8,cutden=40,noreopen,nosettle,stallden=400", Gating: true, Share: 3},
 		},
-		QuickSecs: 60, ThoroughSecs: 900, MaxRunsPerProc: 200,
+		QuickSecs: 90, ThoroughSecs: 900, MaxRunsPerProc: 200,
 		Rule:   "one case = one generated multi-client write/delete/read/snapshot/compaction program under one seeded schedule (plus sampled crash images in the crash configuration); non-trivial = at least 4 operations and one context switch; distinct = distinct hash of (operations, context-switch sequence, crash cuts)",
 		Probes: []string{"tombstones_on_disk", "files_level1"},
 		Real:   engReal, Stub: engStub,
@@ -102,7 +102,7 @@ func init() {
 			{Name: "crash-at-every-event-short-histories", Cfg: "clients=1,imgcap=400,cutden=1,maxops=10,noreopen,nosettle,nosecondcrash", Gating: true, Share: 3, ThoroughOnly: true},
 			{Name: "power-loss-at-every-event-short-histories", Cfg: "clients=1,imgcap=400,cutden=1,maxops=10,noreopen,nosettle,nosecondcrash,powerloss", Gating: true, Share: 2, ThoroughOnly: true},
 		},
-		QuickSecs: 60, ThoroughSecs: 900, MaxRunsPerProc: 100,
+		QuickSecs: 80, ThoroughSecs: 900, MaxRunsPerProc: 100,
 		Rule:   "one case = one generated write/delete/snapshot/compaction history plus the crash images cut from it (sampled disk events, torn last write); non-trivial = at least 4 operations and one context switch; distinct = distinct hash of (operations, schedule, crash cuts)",
 		Probes: []string{},
 		Real:   engReal, Stub: engStub,
@@ -203,15 +203,18 @@ func init() {
 	reg(&checkSpec{
 		ID: "C42", Harness: "store", Inst: storagePkgs, Level: "exploration", Classes: []string{"C42:"},
 		Cfgs: []cfgSpec{
-			{Name: "metadata-after-histories", Cfg: "clients=2,wmeta=3", Gating: true, Share: 1},
-			{Name: "metadata-between-deletes", Cfg: "clients=1,wmeta=9,wdel=6,wread=1,noreopen,settle_s=8", Gating: true, Share: 2},
+			{Name: "metadata-after-histories", Cfg: "clients=2,wmeta=3,idxcompact", Gating: true, Share: 1},
+			{Name: "metadata-between-deletes", Cfg: "clients=1,wmeta=9,wdel=6,wread=1,noreopen,settle_s=8,idxcompact", Gating: true, Share: 2},
+			// index logs of 64 bytes rotate every few entries, also in the middle of a delete; all 12 series (the third measurement has two series in one tsi1 partition)
+			{Name: "metadata-with-tiny-index-log", Cfg: "clients=1,wmeta=5,wdel=8,wread=1,noreopen,settle_s=3,idxcompact,idxlog=64,nseries=12,maxops=60", Gating: true, Share: 2},
 		},
 		QuickSecs: 40, ThoroughSecs: 600, MaxRunsPerProc: 150,
-		Rule:   "one case = one generated write/delete history over 3 shards with metadata operations: MeasurementNames, TagKeys, TagValues over all shards or a shard subset, with a condition from a bounded grammar (optional _name = 'm', optional _tagKey = 'k' [OR _tagKey = 'k2'], optional series filter tag =/!= 'v' or AND/OR of two), with no authorizer, an authorizer hiding nothing or one hiding a generated subset of the series; half of the queries repeat an earlier one (same condition before and after deletes). A query is judged when its client is alone, and every query of the program plus a fixed battery again at each quiescent point (end of program, after the settle period, after reopen): sorted, duplicate-free, grouped by measurement, every name carried by a visible series with live data (matching the condition, in the queried shards) listed, no name listed that only hidden series carry or whose every carrying series was wiped by a completed full-range delete or never written there; non-trivial = at least 4 operations and one context switch",
-		Probes: []string{"metadata_checks", "meta_values", "meta_keys", "meta_names", "meta_filtered", "meta_hiding_authorizer", "meta_shard_subset"},
+		Rule:   "one case = one generated write/delete history over 3 shards with metadata operations: MeasurementNames, TagKeys, TagValues over all shards or a shard subset, with a condition from a bounded grammar (optional _name = 'm', optional _tagKey = 'k' [OR _tagKey = 'k2'], optional series filter tag =/!= 'v' or AND/OR of two), with no authorizer, an authorizer hiding nothing or one hiding a generated subset of the series; half of the queries repeat an earlier one (same condition before and after deletes). A query is judged when its client is alone, and every query of the program plus a fixed battery again at each quiescent point (end of program, after the settle period, after reopen): sorted, duplicate-free, grouped by measurement, every name carried by a visible series with live data (matching the condition, in the queried shards) listed, no name listed that only hidden series carry or whose every carrying series was wiped by a completed full-range delete or never written there. A run that is clean or has only a listing of the C42-F1..F4 family against it then lets the index logs age, forces a compaction of every tsi1 index, waits for it and repeats the unfiltered queries without authorizer: a measurement (or a tag key / value of a measurement) that is gone from all queried shards and still listed is reported with the stem still-listed-after-index-compaction; non-trivial = at least 4 operations and one context switch",
+		Probes: []string{"metadata_checks", "meta_values", "meta_keys", "meta_names", "meta_filtered", "meta_hiding_authorizer", "meta_shard_subset", "index_compaction_forced"},
 		Real:   storeReal, Stub: engStub[:4],
 		Assumptions: []string{"'not listed when no data remains' is only demanded after a completed full-range delete (piecewise deletes keep a TSM index entry until compaction)",
 			"MeasurementNames with a series filter is judged only for = comparisons and ORs of them; for AND and != the implementation combines per-measurement answers of each term rather than evaluating the condition per series, and the property does not say which reading is meant",
+			"forced index compaction: skipped when the maximum index log age of the run is the 4 h knob value (a third of the runs; hours of simulated background ticks); tag keys and values of deleted series of a measurement that lives on are never tombstoned by tsi1, compaction or not, so after the compaction they keep the signatures of C42-F1/F2 - only names of a measurement that is gone from every queried shard get the still-listed-after-index-compaction stem",
 			"a measurement group with an empty key/value list in a TagKeys/TagValues result does not count as a returned name (the statement executor drops such groups)",
 			"conditions use InfluxQL semantics (a tag the series lacks is the empty string); empty literals, regular expressions and the 'value' pseudo-key are not generated"},
 	})
@@ -223,7 +226,7 @@ func init() {
 		ID: "C06", Harness: "eng", Inst: storagePkgs, Level: "exploration", Classes: []string{"C06:"},
 		Cfgs: []cfgSpec{{Name: "keycursor-over-engine-files", Cfg: fileCfg + ",nocompactcheck,notombcheck", Gating: true, Share: 1},
 			{Name: "keycursor-over-many-uncompacted-files", Cfg: fileCfg + ",nocompactcheck,notombcheck,nocompact,wsnap=9,maxops=90", Gating: true, Share: 1}},
-		QuickSecs: 45, ThoroughSecs: 600, MaxRunsPerProc: 150,
+		QuickSecs: 75, ThoroughSecs: 600, MaxRunsPerProc: 150,
 		Rule:      "one case = the set of TSM files and tombstones a real engine produced under one generated write/overwrite/delete/snapshot/compaction program and seeded schedule, read through KeyCursor at every timestamp +-1 of every key, both directions, scalar and array form; non-trivial = at least 4 operations and one context switch; distinct = distinct hash of (operations, schedule)",
 		Probes:    []string{"filecheck_multi_file", "filecheck_tombstones", "keycursor_reads"},
 		Real:      append([]string{"tsm1.FileStore.KeyCursor, Read*Block / Read*ArrayBlock over copies of the engine's files"}, engReal...), Stub: engStub,
